@@ -265,6 +265,65 @@ Theorem C17_tenalg_call_runs_on_both_views : forall (R : rules) (cb ct : cfg) (h
 Proof. exact composite_view. Qed.
 Print Assumptions C17_tenalg_call_runs_on_both_views.
 
+(* library code reaches the backend through an alias of the manager module (`from . import backend as T; T.n(...)`):
+   the same look-up as the manager-module route, in every state and mode *)
+Theorem C17_dispatch_library_route : forall (R : rules) (c : cfg) (D : drules) (nc : ncfg) (d : dst) (t : tid) (n : fname),
+  dout R c D nc d (DCall t RLib n) = dout R c D nc d (DCall t RMgr n).
+Proof. exact library_route_is_manager_route. Qed.
+Print Assumptions C17_dispatch_library_route.
+
+(* a name that is in neither _functions nor _attributes is not dispatched: no route reaches it in any history (so a
+   method registered at run time under a NEW name exists on the backend class only, tensorly.<name> raises AttributeError) *)
+Theorem C17_unlisted_name_not_dispatched : forall (R : rules) (c : cfg) (D : drules) (nc : ncfg) (own0 : tid -> option inst)
+    (h1 : list dop) (t : tid) (r : route) (n : fname) (h2 : list dop),
+  is_fun nc n = false -> is_attr nc n = false ->
+  nth (length h1) (dtrace R c D nc (dinit nc own0) (h1 ++ DCall t r n :: h2)) DNone = DErr.
+Proof. exact unlisted_name_not_dispatched. Qed.
+Print Assumptions C17_unlisted_name_not_dispatched.
+
+(* register_backend_method (model: the method table of the backend CLASSES, classes = backend names, one level of
+   inheritance).  A method registered by thread u runs for EVERY thread whose current backend is of the class of u's
+   backend, and of a subclass that does not define the name itself; everybody else, and every other name, is unaffected;
+   a backend whose class provides nothing raises AttributeError; and at any position of any history of selections,
+   registrations and calls the call is executed by the caller's view with what the class of that object provides then *)
+Theorem C17_registered_same_class : forall (H : hcfg) (c : cfg) (s : st) (mt : mtab) (u : tid) (n : fname) (v : nat) (t : tid),
+  name_of c (cur s t) = name_of c (cur s u) ->
+  which H c s (register c s mt u n v) t n = Some (cur s t, v).
+Proof. exact registered_same_class. Qed.
+Print Assumptions C17_registered_same_class.
+
+Theorem C17_registered_inherited : forall (H : hcfg) (c : cfg) (s : st) (mt : mtab) (u : tid) (n : fname) (v : nat) (t : tid),
+  name_of c (cur s t) <> name_of c (cur s u) ->
+  mt (name_of c (cur s t)) n = MInherit -> cparent H (name_of c (cur s t)) = Some (name_of c (cur s u)) ->
+  which H c s (register c s mt u n v) t n = Some (cur s t, v).
+Proof. exact registered_inherited. Qed.
+Print Assumptions C17_registered_inherited.
+
+Theorem C17_registered_elsewhere_unchanged : forall (H : hcfg) (c : cfg) (s : st) (mt : mtab) (u : tid) (n : fname) (v : nat) (t : tid),
+  name_of c (cur s t) <> name_of c (cur s u) ->
+  (mt (name_of c (cur s t)) n <> MInherit \/ cparent H (name_of c (cur s t)) <> Some (name_of c (cur s u))) ->
+  which H c s (register c s mt u n v) t n = which H c s mt t n.
+Proof. exact registered_elsewhere_unchanged. Qed.
+Print Assumptions C17_registered_elsewhere_unchanged.
+
+Theorem C17_registered_other_name : forall (H : hcfg) (c : cfg) (s : st) (mt : mtab) (u : tid) (n : fname) (v : nat) (t : tid) (m : fname),
+  m <> n -> which H c s (register c s mt u n v) t m = which H c s mt t m.
+Proof. exact registered_other_name. Qed.
+Print Assumptions C17_registered_other_name.
+
+Theorem C17_undefined_method_raises : forall (H : hcfg) (c : cfg) (s : st) (mt : mtab) (t : tid) (n : fname),
+  lookup H mt (name_of c (cur s t)) n = None -> which H c s mt t n = None.
+Proof. exact undefined_raises. Qed.
+Print Assumptions C17_undefined_method_raises.
+
+Theorem C17_registered_call_follows_view : forall (R : rules) (H : hcfg) (c : cfg) (x : rst) (h1 : list rop) (t : tid) (n : fname)
+    (h2 : list rop),
+  let b := view (tls (r_sel x) t) (shared (r_sel x)) (events R c (r_sel x) (rsel_ops h1)) t in
+  nth (length h1) (rtrace R H c x (h1 ++ RCall t n :: h2)) RNone
+  = RRan (option_map (pair b) (lookup H (r_mt (rrun R H c x h1)) (name_of c b) n)).
+Proof. exact registered_call_follows_view. Qed.
+Print Assumptions C17_registered_call_follows_view.
+
 (* the other clauses seen through dispatched CALLS: isolation (whatever the other threads do thread-locally - sets,
    contexts, captures, calls, use_dynamic_dispatch - a function called by t through any route runs on the same object
    as before) and restore (after Enter ... Exit around any properly nested history, normal or exceptional exit, a
@@ -286,9 +345,9 @@ Proof. exact dispatch_restore. Qed.
 Print Assumptions C17_dispatch_restore.
 
 (* dispatched ATTRIBUTES (evaluated at access time): through the manager module and through the module __getattr__
-   they are the attribute of the accessing thread's view; through the CLASS the descriptor raises AttributeError in
-   the current tree (descr_class D = false: `if isinstance is None` tests the builtin), and would follow the view
-   with the one-word repair (descr_class D = true) *)
+   they are the attribute of the accessing thread's view; through the CLASS the statement depends on the descriptor:
+   that value if it serves class access (descr_class D = true: the tree since /repo commit 0b04404, tree_drules),
+   AttributeError otherwise (drules_before_0b04404) *)
 Theorem C17_dispatch_attribute_follows_view : forall (R : rules) (c : cfg) (D : drules) (nc : ncfg) (d : dst) (h1 : list dop)
     (t : tid) (n : fname) (h2 : list dop),
   dyn_ok nc d -> no_static h1 -> is_fun nc n = false -> is_attr nc n = true ->
@@ -298,6 +357,16 @@ Theorem C17_dispatch_attribute_follows_view : forall (R : rules) (c : cfg) (D : 
   nth (length h1) (dtrace R c D nc d (h1 ++ DCall t RClass n :: h2)) DNone = if descr_class D then DVal v else DErr.
 Proof. exact attribute_follows_view. Qed.
 Print Assumptions C17_dispatch_attribute_follows_view.
+
+(* the class route with the repaired descriptor (tree_drules): BackendManager.<attr> is the attribute of the
+   accessing thread's view at any position of any history without use_static_dispatch *)
+Theorem C17_dispatch_class_attribute_follows_view : forall (R : rules) (c : cfg) (nc : ncfg) (d : dst) (h1 : list dop)
+    (t : tid) (n : fname) (h2 : list dop),
+  dyn_ok nc d -> no_static h1 -> is_fun nc n = false -> is_attr nc n = true ->
+  nth (length h1) (dtrace R c tree_drules nc d (h1 ++ DCall t RClass n :: h2)) DNone
+  = DVal (view (tls (d_sel d) t) (shared (d_sel d)) (events R c (d_sel d) (sel_ops h1)) t).
+Proof. intros R c nc d h1 t n h2. exact (class_attribute_follows_view R c tree_drules nc d h1 t n h2 eq_refl). Qed.
+Print Assumptions C17_dispatch_class_attribute_follows_view.
 
 (* ... while an attribute that tensorly/__init__.py binds by name at import (int64, int32, float64, pi, e, inf, nan,
    index) keeps the import-time backend's value for ever: tensorly.<attr> does NOT follow the backend (C17 speaks of
@@ -362,6 +431,38 @@ Theorem C17_restore_mixed : forall (R : rules) (cb ct : cfg) (m : bool) (s : st2
   on (negb m) (run2 R cb ct s hist) = run R (cfg2 cb ct (negb m)) (on (negb m) s) (proj (negb m) h).
 Proof. exact restore_mixed. Qed.
 Print Assumptions C17_restore_mixed.
+
+(* re-binding under concurrency (below operation level, outside C17's quantifier: use_dynamic_dispatch is a process-wide
+   mode switch, not a selection).  While one thread runs use_dynamic_dispatch() other threads may look dispatched names
+   up between any two of its acts.  For the loop WITHOUT the delattr every such look-up, in every schedule, finds the
+   old or the new binding, hence never a missing attribute ... *)
+Theorem C17_micro_rebind_old_or_new : forall (fresh : fname -> slot) (names : list fname) (l : list (bool * fname))
+    (cl0 cl : fname -> slot),
+  (forall n, cl n = cl0 n \/ cl n = fresh n) ->
+  Forall (fun s => exists n, s = cl0 n \/ s = fresh n) (rsched cl (rprog false fresh names) l).
+Proof. exact rsched_old_or_fresh. Qed.
+Print Assumptions C17_micro_rebind_old_or_new.
+
+Theorem C17_micro_rebind_no_window : forall (fresh : fname -> slot) (names : list fname) (l : list (bool * fname))
+    (cl : fname -> slot),
+  (forall n, cl n <> SAbsent) -> (forall n, fresh n <> SAbsent) ->
+  Forall (fun s => s <> SAbsent) (rsched cl (rprog false fresh names) l).
+Proof. exact rebind_no_window. Qed.
+Print Assumptions C17_micro_rebind_no_window.
+
+(* ... for the loop as written (delattr, then setattr) it is refuted: a look-up between the two acts finds the name
+   missing (AttributeError through the manager module) although it is bound before and after; confirmed on the real
+   code by a settrace interleaving on every run (known finding rebind_window, candidate repair
+   build/fix_candidates/C17_dynamic_dispatch_window.diff) *)
+Theorem C17_micro_rebind_window_refuted :
+  let cl := fun _ : fname => SWrap in
+  rsched cl (rprog true (fun _ => SWrap) [0; 1]) [(false, 0); (true, 0); (false, 0); (false, 1); (true, 0); (false, 0)]
+  = [SWrap; SAbsent; SWrap; SWrap] /\
+  (forall nc s t D, eval_slot nc s t true D SAbsent 0 = VError) /\
+  rsched cl (rprog false (fun _ => SWrap) [0; 1]) [(false, 0); (true, 0); (false, 0); (false, 1); (true, 0); (false, 0)]
+  = [SWrap; SWrap; SWrap; SWrap].
+Proof. exact rebind_window_refuted. Qed.
+Print Assumptions C17_micro_rebind_window_refuted.
 
 (* P5 micro-steps ("in any interleaving" below the level of whole operations).  Every operation is
    a program of acts (Model/Backend.v, last part: what a thread switch can separate); a schedule is any
@@ -599,7 +700,7 @@ Example C17_dispatch_nonvacuous :
   dtrace fixed_rules cfg0 tree_drules nc0 d0 hist0
   = [DNone; DNone; DSelObs ODone; DSelObs ODone;
      DRan (Obj 0); DRan (Named 1); DRan (Named 1); DRan (Obj 0); DRan (Named 0); DVal (Obj 0); DVal (Named 1);
-     DVal (Named 0); DErr;
+     DVal (Named 0); DVal (Named 1);
      DNone; DSelObs OReraised;
      DRan (Obj 0); DRan (Obj 0); DRan (Named 0); DRan (Named 0); DVal (Obj 0); DVal (Named 0);
      DNone; DRan (Named 0)].
@@ -644,3 +745,25 @@ Example C17_initialize_nonvacuous :
   (exists s, initialize fixed_rules cfg0 listed None 0 = IOk false s /\ tls s 0 = Some (Named 0) /\ tls s 5 = None) /\
   initialize fixed_rules cfg0 listed (Some 3) 0 = IFail false.
 Proof. cbv zeta. repeat split; try (eexists; repeat split; reflexivity). Qed.
+
+(* the descriptor before /repo commit 0b04404 (documentation of the old code): the class-level access at position 12 of
+   the same history raised AttributeError; every other observation is the same *)
+Example C17_descriptor_before_0b04404 :
+  nth 12 (dtrace fixed_rules cfg0 drules_before_0b04404 nc0 d0 hist0) DNone = DErr /\
+  nth 12 (dtrace fixed_rules cfg0 tree_drules nc0 d0 hist0) DNone = DVal (Named 1) /\
+  (forall k, k <> 12 -> nth k (dtrace fixed_rules cfg0 drules_before_0b04404 nc0 d0 hist0) DNone
+                        = nth k (dtrace fixed_rules cfg0 tree_drules nc0 d0 hist0) DNone).
+Proof. exact descriptor_before_0b04404. Qed.
+
+(* non-vacuity of the C17_registered_... theorems: class 1 is a subclass of class 0 (cfg0: Obj 0 is of class 1), class 3
+   provides nothing; thread 1 registers on the stock class, thread 2 (on Obj 0) inherits, registers its own, thread 3 on
+   Obj 2 (class 3) raises *)
+Example C17_registered_nonvacuous :
+  let H := {| cparent := fun cl => if Nat.eqb cl 1 then Some 0 else None |} in
+  let mt := fun (cl : name) (_ : fname) => if Nat.eqb cl 1 then MInherit else if Nat.eqb cl 3 then MMissing else MHas 0 in
+  rtrace fixed_rules H cfg0 {| r_sel := s0; r_mt := mt |}
+    [RSel (Set_ 2 (SInst (Obj 0)) true); RCall 2 7; RReg 1 7 1; RCall 2 7; RCall 1 7; RReg 2 7 2; RCall 2 7; RCall 1 7;
+     RCall 2 8; RSel (Set_ 3 (SInst (Obj 2)) true); RCall 3 7]
+  = [RSelObs ODone; RRan (Some (Obj 0, 0)); RNone; RRan (Some (Obj 0, 1)); RRan (Some (Named 0, 1)); RNone;
+     RRan (Some (Obj 0, 2)); RRan (Some (Named 0, 1)); RRan (Some (Obj 0, 0)); RSelObs ODone; RRan None].
+Proof. vm_compute. reflexivity. Qed.
